@@ -5,6 +5,7 @@ import numpy as np
 from .. import core, gen
 
 PROP_FILE = 'Knee/Props/C14.lean'
+PROP_FILES = ['Knee/Props/C14.lean', 'Knee/Props/Invariance.lean']
 RULE = ('non-flat curves (dyadic families) x reductions (random subsets with both ends and real rdp outputs) x knee subsets x (tx, ty) from a grid x '
         'extremes in {False, True}, both variants. Correspondence is oracle-fed (the two float decisions per segment - wide? and ceil(w/(2tx)) - are evaluated by the '
         'harness from the property\'s definition) and exact; the exact-Q decisions are compared on conclusive cases. Predicate on the REAL output: completes, every '
